@@ -98,8 +98,11 @@ class ProcessingPipelineResolver:
             return PipelineInfo(pipeline=pipeline, priority=pipeline.priority, path=spec)
 
         def resolve_spec(pipelines: list[PipelineInfo], spec: str) -> list[PipelineInfo]:
+            # A registered pipeline has precedence over a directory with the same name, as in
+            # resolve_pipeline(). A specifier that consists only of the stripped characters
+            # doesn't name a directory.
             spec_path = Path(spec.rstrip("/*"))
-            if spec_path.is_dir():
+            if spec not in self.pipelines and spec.rstrip("/*") != "" and spec_path.is_dir():
                 pipelines.extend([resolve_path(str(path)) for path in spec_path.glob("**/*.yml")])
             else:
                 pipelines.append(resolve_path(spec))
